@@ -564,6 +564,8 @@ func run(r *enumlib.Run) {
 	}
 	r.Extra("process_statistics", p.stats)
 
+	destPass(r, c)
+
 	// samples: the middle case of some spaces, judged on its own
 	for i, sp := range p.sps {
 		if i >= 11 || sp.size == 0 {
@@ -616,6 +618,9 @@ func run(r *enumlib.Run) {
 
 // replay re-judges one stored case in a single-case process.
 func replay(class string, raw json.RawMessage) (string, bool) {
+	if strings.HasPrefix(class, "C01:outcome-depends-on-destination") || strings.HasPrefix(class, "C01:earlier-result-rewritten") {
+		return replayDest(raw)
+	}
 	var in caseInput
 	if err := json.Unmarshal(raw, &in); err != nil {
 		return "cannot decode input: " + err.Error(), false
